@@ -250,7 +250,9 @@ func H_C08_Process() {
 		verifReach("C08.process.rotated")
 	} else {
 		st.checkRotated("C08.open", s.MaxFiles > 0, s.MaxFiles)
-		if cur != data {
+		if s.MaxDuration == 0 && verifFDIsName(s.f, st.actName) {
+			// (re)opened the existing active file and no rotation can have followed (a freshly opened file has
+			// written 0 bytes; only a time limit could rotate it): strictly appended (st.actC is "" when there was none)
 			verifAssert(cur == st.actC+data, "C08.open.appends-to-existing-file")
 		}
 		verifReach("C08.process.opened")
